@@ -322,8 +322,8 @@ fn run(a: &Args) -> i32 {
     let mut rep = Reporter::from_args(a, "exploration");
     vhcore::work_dir("C21/run");
     // maximal length of the enumerated middle part: (with the empty tail, with a non-empty tail)
-    let (src_len_bare, src_len_tail) = a.tier.pick((5usize, 4usize), (6usize, 5usize));
-    let dep_len = a.tier.pick(7usize, 8usize);
+    let (src_len_bare, src_len_tail) = a.tier.pick((5usize, 4usize), (5usize, 4usize));
+    let dep_len = a.tier.pick(7usize, 7usize);
     let tails = src_tails();
     let mut total = Acc::default();
     let mut expected = 0u64;
